@@ -49,50 +49,50 @@ type ModLoc struct {
 }
 
 type DynCall struct {
-	Name string // name of the called value (param/freevar/field name)
-	Spec string // fnspec name
-	Args []SExpr // optional explicit argument expressions (evaluated in the caller), replacing the call's own arguments
+	Name    string  // name of the called value (param/freevar/field name)
+	Spec    string  // fnspec name
+	Args    []SExpr // optional explicit argument expressions (evaluated in the caller), replacing the call's own arguments
 	HasArgs bool
 }
 
 type FuncContract struct {
-	Target    string // e.g. (*IterationDurations).Add, withRandomDistribution$1
-	PkgPath   string
-	Props     []string
-	Requires  []Clause
-	Ensures   []Clause
-	OnPanic   []Clause // must hold when the function exits by panic
-	Invs      []Clause // closure-state invariants (over free variables): assumed at entry, proved at exit and at creation
-	Modifies  []ModLoc
-	ModAll    bool
-	ModNone   bool
-	NoPanic   bool
-	MayPanic  bool
-	Recovers  bool // calls recover() itself; as a deferred call it clears the panic
+	Target       string // e.g. (*IterationDurations).Add, withRandomDistribution$1
+	PkgPath      string
+	Props        []string
+	Requires     []Clause
+	Ensures      []Clause
+	OnPanic      []Clause // must hold when the function exits by panic
+	Invs         []Clause // closure-state invariants (over free variables): assumed at entry, proved at exit and at creation
+	Modifies     []ModLoc
+	ModAll       bool
+	ModNone      bool
+	NoPanic      bool
+	MayPanic     bool
+	Recovers     bool // calls recover() itself; as a deferred call it clears the panic
 	PanicsAlways bool
-	LoopInv   map[int][]Clause
-	DynCalls  []DynCall
-	Hooks     []GhostHook
-	Sweep     bool // generate SAFE.* obligations
-	Trusted   bool // contract assumed, body not verified (must be reported)
-	Unreach   map[int]bool // blocks whitelisted as unreachable for COVER
-	ArithNote string
-	Implements []string // fnspec names this function is checked to refine
-	Notes     []string
-	Asserts   []AssertHook
-	File      string
-	Line      int
-	Params    []string // optional explicit parameter names for fnspecs
-	ParamTypes []string
-	Results   []string
-	ResultTypes []string
-	IsFnSpec  bool
-	Name      string // fnspec name
-	ThreadRoot bool
+	LoopInv      map[int][]Clause
+	DynCalls     []DynCall
+	Hooks        []GhostHook
+	Sweep        bool         // generate SAFE.* obligations
+	Trusted      bool         // contract assumed, body not verified (must be reported)
+	Unreach      map[int]bool // blocks whitelisted as unreachable for COVER
+	ArithNote    string
+	Implements   []string // fnspec names this function is checked to refine
+	Notes        []string
+	Asserts      []AssertHook
+	File         string
+	Line         int
+	Params       []string // optional explicit parameter names for fnspecs
+	ParamTypes   []string
+	Results      []string
+	ResultTypes  []string
+	IsFnSpec     bool
+	Name         string // fnspec name
+	ThreadRoot   bool
 	AssumeRanges bool
-	FPMonotone bool
-	FPInexact bool
-	FPAbstract bool // floats are unconstrained values (NaN/Inf included); only float-independent facts are provable
+	FPMonotone   bool
+	FPInexact    bool
+	FPAbstract   bool // floats are unconstrained values (NaN/Inf included); only float-independent facts are provable
 }
 
 type AssertHook struct {
@@ -112,17 +112,17 @@ type ClosesOnly struct {
 }
 
 type Pred struct {
-	Name   string
-	Params []string
-	Types  []string
-	Body   SExpr
-	Text   string
+	Name    string
+	Params  []string
+	Types   []string
+	Body    SExpr
+	Text    string
 	PkgPath string
 }
 
 type GhostVar struct {
-	Name string
-	Type string // int, bool, real, map[int]int, map[int]bool
+	Name    string
+	Type    string // int, bool, real, map[int]int, map[int]bool
 	PkgPath string
 }
 
@@ -138,25 +138,25 @@ type Lemma struct {
 }
 
 type ContractSet struct {
-	Funcs   map[string]*FuncContract // key pkgpath + "." + target
-	FnSpecs map[string]*FuncContract // by name (global)
-	Preds   map[string]*Pred
-	Ghosts  map[string]*GhostVar
-	Lemmas  []*Lemma
+	Funcs      map[string]*FuncContract // key pkgpath + "." + target
+	FnSpecs    map[string]*FuncContract // by name (global)
+	Preds      map[string]*Pred
+	Ghosts     map[string]*GhostVar
+	Lemmas     []*Lemma
 	GlobalInvs map[string][]Clause // per package path: invariants over package-level variables, proved of init()
 	ClosesOnly []ClosesOnly        // channel-typed fields on which nothing is ever sent (checked): a completed receive means closed
-	Files   []string
-	Scan    map[string]int // counts of assume/trusted/etc tokens
+	Files      []string
+	Scan       map[string]int // counts of assume/trusted/etc tokens
 }
 
 func newContractSet() *ContractSet {
 	return &ContractSet{
-		Funcs:   map[string]*FuncContract{},
-		FnSpecs: map[string]*FuncContract{},
-		Preds:   map[string]*Pred{},
-		Ghosts:  map[string]*GhostVar{},
+		Funcs:      map[string]*FuncContract{},
+		FnSpecs:    map[string]*FuncContract{},
+		Preds:      map[string]*Pred{},
+		Ghosts:     map[string]*GhostVar{},
 		GlobalInvs: map[string][]Clause{},
-		Scan:    map[string]int{},
+		Scan:       map[string]int{},
 	}
 }
 
